@@ -57,13 +57,19 @@ def oracle_split(value_text, comma):
 
 
 def build(layout, words):
-    v = layout
-    n = 0
-    for i in range(3):
-        if "%%%d" % i in v:
-            v = v.replace("%%%d" % i, words[i])
-            n = i + 1
-    return v, n
+    """Substitutes the placeholders %0 %1 %2 of the layout in ONE pass over the layout text (a word may itself
+    be '%1': substituting the placeholders one after the other would then replace inside the inserted word)."""
+    out, n, i = "", 0, 0
+    while i < len(layout):
+        if layout[i] == "%" and i + 1 < len(layout) and layout[i + 1] in "012":
+            k = int(layout[i + 1])
+            out = out + words[k]
+            n = max(n, k + 1)
+            i += 2
+        else:
+            out = out + layout[i]
+            i += 1
+    return out, n
 
 
 def field_value_text(dump):
